@@ -380,7 +380,10 @@ def streams(ctx, rng, scale):
     jev = gen_json_event_lines(rng, 1500 * scale)
     WIT = ("witness",)
     for w in lw:
-        jev.append((w, WIT, False))
+        if w.split()[1] == "jsonev":
+            jev.append((w, WIT, False))
+    lwo = [w for w in lw if w.split()[1] != "jsonev"]
+    ctx.correspond("finding-witnesses", HARNESS, lwo, lambda l, i, m, r=None: None, nontrivial, want_model=False)
     jmeta = {l: (v, lied) for l, v, lied in jev}
     jl = [l for l, _, _ in jev]
     st = ctx.correspond("json-encoders-events", HARNESS, jl, lambda l, i, m, r=None: ("the JSON encoder refused well-formed events: " + i) if i.startswith("err") else None,
